@@ -3,8 +3,8 @@
    The model never runs out of fuel (C05_refine_fuel), so every theorem is stated for
    every valid input, not only "for every input on which the model returns Ok". *)
 From Coq Require Import List Arith Bool.
-From AV Require Import Base.Util Spec.Lang Spec.FA Spec.Minimal Model.Minimize
-                       Proofs.FARun Proofs.Moore Proofs.Minimize.
+From AV Require Import Base.Util Spec.Lang Spec.FA Spec.Minimal Model.Minimize Model.Hopcroft
+                       Proofs.FARun Proofs.Moore Proofs.Minimize Proofs.Hopcroft Proofs.HopcroftCoded.
 Import ListNotations.
 
 (* ---- the refinement, on any deterministic system (X, step, fin) over a state list Q
@@ -172,6 +172,84 @@ Proof.
 Qed.
 Print Assumptions C05_minify.
 
+(* ---- the mirror model of the refinement as coded (Model/Hopcroft.v): PartitionRefinement, the
+        `processing` worklist and its update rule, for EVERY order in which `processing.pop()` may
+        return the pending ids (sched) and every iteration order of the symbols (sord) ---- *)
+
+(* on any deterministic system: the loop ends within its fuel |Q|+1 and the partition it ends with
+   is Nerode equivalence on the items (it never separates equivalent items and ends stable) *)
+Theorem C05_hopcroft_all_schedules :
+  forall (X : Type) (eqbX : X -> X -> bool), eqb_ok eqbX ->
+  forall (Q : list X), Q <> [] ->
+  forall (step : X -> nat -> X) (fin : X -> bool) (syms : list nat),
+    (forall x a, In a syms -> In x Q -> In (step x a) Q) ->
+    (forall x y a, ~ In a syms -> step x a = step y a) ->
+  forall (back : nat -> X -> list X),
+    (forall a t x, In a syms -> In t Q -> (In x (back a t) <-> In x Q /\ step x a = t)) ->
+  forall (finals : list X), (forall x, In x Q -> (In x finals <-> fin x = true)) ->
+  forall (sord : list nat), (forall a, In a sord <-> In a syms) ->
+  forall (sched : nat -> list nat -> nat),
+  exists Pf, hopcroft eqbX Q back sord sched finals = Some Pf /\
+    forall x y, In x Q -> In y Q ->
+      (look eqbX (p_tab Pf) x = look eqbX (p_tab Pf) y <-> forall w, fin (xrun X step x w) = fin (xrun X step y w)).
+Proof.
+  intros X eqbX He Q Hne step fin syms Hc Hf back Hb finals Hfin sord Hs sched.
+  destruct (hopcroft_nerode X eqbX He Q Hne step fin syms Hc Hf back Hb finals Hfin sord Hs sched) as [Pf [E [_ H]]].
+  exists Pf. split; [exact E|exact H].
+Qed.
+Print Assumptions C05_hopcroft_all_schedules.
+
+(* _minify with the refinement as coded returns, for every schedule, exactly what the specification
+   model returns (automaton with canonical names, and the retained-name partition) *)
+Theorem C05_hopcroft_faithful : forall m sched sord, valid_dfa m = true ->
+  (forall a, In a sord <-> In a (d_syms m)) ->
+  hminify_full m sched sord = minify_full m /\ hto_partial_min_full m sched sord = to_partial_min_full m.
+Proof.
+  intros m sched sord Hv Hs. split; [apply hminify_full_eq|apply hto_partial_min_full_eq]; assumption.
+Qed.
+Print Assumptions C05_hopcroft_faithful.
+
+(* the partition of the mirror model itself (the sets without the trap, as the harness compares them
+   with the implementation's retained names): non-empty blocks, each exactly a Nerode class of the
+   kept states; every kept state with a non-empty residual lies in one.  K = the kept states of
+   minify() or of to_partial() *)
+Theorem C05_hopcroft_partition : forall m K sched sord, valid_dfa m = true ->
+  (kept_minify m = Ok K \/ kept_live m = Ok K) ->
+  (forall a, In a sord <-> In a (d_syms m)) ->
+  exists Pf, h_hopcroft m K sched sord = Some Pf /\
+    (forall B, In B (h_blocks m K Pf) -> B <> [] /\
+       forall q1, In q1 B -> forall q2, In q2 B <->
+         (In q2 K /\ forall w, dfa_acc_from m (Some q1) w = dfa_acc_from m (Some q2) w)) /\
+    (forall q, In q K -> (exists w, dfa_acc_from m (Some q) w = true) -> exists B, In B (h_blocks m K Pf) /\ In q B).
+Proof.
+  intros m K sched sord Hv HK Hs.
+  assert (G : goodK m K) by (destruct HK as [E|E]; [eapply kept_minify_goodK|eapply kept_live_goodK]; eassumption).
+  exact (h_blocks_spec m Hv K G sched sord Hs).
+Qed.
+Print Assumptions C05_hopcroft_partition.
+
+(* _minify entirely as coded (selection, Hopcroft refinement under any schedule, back_map, names =
+   positions in get_sets(), representative = any member `rep` picks, rows filtered through back_map,
+   empty_language when only the trap's class remains, allow_partial from the row lengths): it never
+   fails (no KeyError of back_map[...] / transitions[...], no fuel), and its result is isomorphic to
+   the specification model's - a valid record, same alphabet, same language as the source, same number of states as
+   the specification model's minimal automaton, minimal among the automata of its own kind *)
+Theorem C05_coded_minify : forall m sched sord rep, valid_dfa m = true ->
+  (forall a, In a sord <-> In a (d_syms m)) -> (forall l, l <> [] -> In (rep l) l) ->
+  exists R P R0, cminify_full m sched sord rep = Ok (R, P) /\ minify m = Ok R0 /\
+    valid_dfa R = true /\ d_syms R = d_syms m /\ L_dfa R =L L_dfa m /\ size R = size R0 /\
+    (complete R -> minimal_complete R) /\ (~ complete R -> minimal_partial R).
+Proof. exact cminify_full_ok. Qed.
+Print Assumptions C05_coded_minify.
+
+Theorem C05_coded_to_partial_min : forall m sched sord rep, valid_dfa m = true ->
+  (forall a, In a sord <-> In a (d_syms m)) -> (forall l, l <> [] -> In (rep l) l) ->
+  exists R P R0, cto_partial_min_full m sched sord rep = Ok (R, P) /\ to_partial_min m = Ok R0 /\
+    valid_dfa R = true /\ d_syms R = d_syms m /\ L_dfa R =L L_dfa m /\ size R = size R0 /\
+    (complete R -> minimal_complete R) /\ (~ complete R -> minimal_partial R).
+Proof. exact cto_partial_min_full_ok. Qed.
+Print Assumptions C05_coded_to_partial_min.
+
 (* ---- non-vacuity ---- *)
 (* the section-8 reproducer: a kept state has an explicit edge into a dropped (dead) state *)
 Example C05_example_dead_edge :
@@ -191,4 +269,14 @@ Proof. vm_compute. repeat split. Qed.
 Example C05_example_empty :
   let m := mkdfa [0;1] [0] [(0,[(0,1)]); (1,[])] 0 [] true in
   valid_dfa m = true /\ minify_full m = Ok (empty_language [0], []).
+Proof. vm_compute. repeat split. Qed.
+
+(* the Hopcroft mirror on the section-8 reproducer, two schedules (oldest pending id first / newest first) and both
+   symbol orders: the same partition; _minify as coded: names are positions in get_sets() *)
+Example C05_example_hopcroft :
+  let m := mkdfa [0;1;2;3] [0;1] [(0,[(0,3);(1,1)]); (1,[(0,3);(1,2)]); (2,[]); (3,[(0,1);(1,3)])] 0 [3] true in
+  hminify_full m (fun _ W => hd 0 W) [0;1] = minify_full m /\
+  hminify_full m (fun _ W => last W 0) [1;0] = minify_full m /\
+  cminify_full m (fun _ W => hd 0 W) [0;1] (fun l => hd 0 l) =
+    Ok (mkdfa [1;2;3] [0;1] [(1,[(0,3);(1,1)]); (2,[(0,1);(1,3)]); (3,[(0,1)])] 2 [1] true, [[3];[0];[1]]).
 Proof. vm_compute. repeat split. Qed.
